@@ -9,7 +9,7 @@ ALLOC = re.compile(r"(Vec::<T>::with_capacity|Vec::<T, A>::with_capacity_in|vec:
                    r"VecDeque::<T>::with_capacity|String::reserve|Box::<\[T\]>::new_uninit_slice|BinaryHeap::<T>::with_capacity)$")
 READ = re.compile(r"(ReadBytesExt::read_(u8|u16|u32|u64|i8|i16|i32|i64|u128)|serialize::Deserial::deserial|serialize::Get::get|"
                   r"concordium_contracts_common::(traits::)?(Deserial::deserial|Get::get|Read::read_(u8|u16|u32|u64|i8|i16|i32|i64))|"
-                  r"leb128::read::(unsigned|signed)|parse::(Parseable::parse|GetParseable::next)|Cursor.*::next)$")
+                  r"schema::deserial_length|leb128::read::(unsigned|signed)|parse::(Parseable::parse|GetParseable::next)|Cursor.*::next)$")
 NARROW = re.compile(r"\b(u8|u16|i8|i16|bool)\b")
 WIDE = re.compile(r"\b(u32|u64|usize|i32|i64|u128)\b")
 MINF = re.compile(r"cmp::(min|Ord::min)$|::min$")
